@@ -80,6 +80,8 @@ def _summary(run, proc):
 def random_case(rng, tier):
     if rng.random() < 0.45:
         program = programs.gen_process_program(rng, PROGRAM_CFG)
+        if rng.random() < 0.2:
+            program['codec'] = True  # the class stores inputs/outputs in a representation of its own
     else:
         program = wcprograms.gen_outline(rng)
     _, boundaries = reference(program)
